@@ -18,12 +18,12 @@ TRUSTED = _c03.TRUSTED
 CASE_IMPORTS = [("PW.model", "M_rodrigues"), ("PW.model", "M_affine"), ("PW.model", "M_rotation"),
                 ("PW.model", "M_composite"), ("PW.model", "M_coordmgr"), ("PW.corr", "K_C03")]
 ASSUMPTIONS = _c03.ASSUMPTIONS + [
-    "tag names that are also attribute names of the class (tag_as, translate, ...) never reach __getattr__ and are "
-    "outside the model; the generator does not use them",
+    "known finding tag_shadows_attribute: a tag named like an attribute of the class is converted by do_transform but not by "
+    "an attribute read (model: attr_shadowed; theorem C04_attribute_read_shadowed_refuted); generated as a probe in every run",
     "assigned points are kx3 arrays; the (-1,3) shape check of __setattr__ belongs to C20"]
 EXTRA_TARGETS = ["corr/K_C03.vo"]
 
-DEFINITIONAL = ["C04_attribute_protocol_partial", "C04_unknown_tag_errors", "C04_tag_as_records_length",
+DEFINITIONAL = ["C04_unknown_tag_errors", "C04_tag_as_records_length",
                 "C04_retag_moves_only_that_tag"]
 BASE_RULE = RULE
 _STATS = {}
@@ -37,10 +37,23 @@ def _count(key):
 
 
 # attributes of the class: a tag with such a name is never converted on an attribute read (known finding)
-CLASS_ATTRIBUTES = ["append_transform", "uniform_scale", "non_uniform_scale", "convert_units", "flip", "translate", "reorient",
-                    "rotate", "tag_as", "do_transform", "_tags_to_indices", "_points_tag", "_points", "_transform",
-                    "__dict__", "__class__", "__doc__", "__module__", "__init__", "__setattr__", "__getattr__"]
-SHADOW_TAGS = ["flip", "translate", "_points", "_points_tag", "_transform", "do_transform"]
+CLASS_ATTRIBUTES = ['__class__', '__delattr__', '__dict__', '__dir__', '__doc__', '__eq__', '__format__', '__ge__', '__getattr__', '__getattribute__', '__getstate__', '__gt__', '__hash__', '__init__', '__init_subclass__', '__le__', '__lt__', '__module__', '__ne__', '__new__', '__reduce__', '__reduce_ex__', '__repr__', '__setattr__', '__sizeof__', '__str__', '__subclasshook__', '__weakref__', '_points', '_points_tag', '_tags_to_indices', '_transform', 'append_transform', 'convert_units', 'do_transform', 'flip', 'non_uniform_scale', 'reorient', 'rotate', 'tag_as', 'translate', 'uniform_scale']
+
+
+def _check_attribute_list():
+    """fail-closed tie of the attribute list: real dir() == this list == the list in coq/model/M_coordmgr.v"""
+    import os, re
+    from polliwog.transform._coordinate_manager import CoordinateManager
+    real = sorted(dir(CoordinateManager()))
+    if real != sorted(CLASS_ATTRIBUTES):
+        raise RuntimeError("dir(CoordinateManager()) changed: %r" % sorted(set(real) ^ set(CLASS_ATTRIBUTES)))
+    txt = open(os.path.join(os.path.dirname(__file__), "..", "..", "coq", "model", "M_coordmgr.v")).read()
+    body = txt[txt.index("Definition class_attributes"):txt.index("Definition attr_shadowed")]
+    if sorted(re.findall(r'"([^"]+)"', body)) != real:
+        raise RuntimeError("class_attributes in M_coordmgr.v differs from dir(CoordinateManager())")
+
+
+SHADOW_TAGS = ["flip", "translate", "_points", "_points_tag", "_transform", "do_transform", "__doc__", "__eq__"]
 TAGS = ["a", "b", "c", "d", "src"]
 UNKNOWN = ["zz", "nope"]
 
@@ -163,8 +176,10 @@ def gen_cases(rng, n, tier):
             ops, known = [], []
             names = TAGS[:]
             rng.shuffle(names)
-            if rng.random() < 0.08:  # probe: a tag named like an attribute of the class
-                names[rng.randrange(3)] = rng.choice(SHADOW_TAGS)
+            shadow = None
+            if rng.random() < 0.12:  # probe: a tag named like an attribute of the class
+                shadow = rng.choice(SHADOW_TAGS)
+                names[rng.randrange(2)] = shadow
             for seg in range(rng.randint(2, 4)):
                 nm = names[seg]
                 ops.append({"c": "tag_as", "name": nm})
@@ -182,7 +197,16 @@ def gen_cases(rng, n, tier):
             ops.append({"c": "tag_as", "name": last})
             if last not in known:
                 known.append(last)
+            if shadow is not None and rng.random() < 0.5:
+                ops.append({"c": "get", "name": shadow})  # before any assignment
             ops.append({"c": "set", "name": rng.choice(known), "points": _pts(rng) or [grid_vec(rng)]})
+            if shadow is not None:
+                # attribute reads of the shadowed tag from wherever the points are (forward / backward / same position)
+                ops.append({"c": "get", "name": shadow})
+                ops.append({"c": "set", "name": shadow, "points": _pts(rng) or [grid_vec(rng)]})
+                ops.append({"c": "get", "name": shadow})
+                ops.append({"c": "set", "name": rng.choice(known), "points": _pts(rng) or [grid_vec(rng)]})
+                ops.append({"c": "get", "name": shadow})
             ops += _reads(rng, known, rng.randint(2, 4))
             if rng.random() < 0.5:
                 # keep going: more transforms / a re-tag must not disturb the other conversions
@@ -204,6 +228,7 @@ def run_impl(c):
 
     def go():
         import ounce
+        _check_attribute_list()
         cm = CoordinateManager()
         results, factors, lens = [], [], []
         for op in c["ops"]:
@@ -362,7 +387,11 @@ def oracle(c, o):
             continue
         if k == "get":
             if assigned is None and op["name"] in CLASS_ATTRIBUTES:
-                continue  # ordinary attribute lookup succeeds, __getattr__ is not consulted
+                # ordinary attribute lookup succeeds, __getattr__ is not consulted: no ValueError for a tag of that name
+                if op["name"] in tags and r.get("raise") != "ValueError":
+                    return ("SHADOWED attribute read of tag %r before any assignment: ValueError demanded, the attribute (%s) was "
+                            "returned" % (op["name"], r.get("other", "value")))
+                continue
             if assigned is None:
                 if r.get("raise") != "ValueError":
                     return "read before any assignment: %r, ValueError demanded" % r
